@@ -430,6 +430,12 @@ pub struct Foreign {
     /// `validate_at(now)`.
     #[serde(default)]
     pub at_clock: bool,
+    /// the extensions of the EE certificate in another order (0: as written)
+    #[serde(default)]
+    pub ee_ext_perm: u32,
+    /// crlEntryExtensions on the revoked entries (see `CrlSpec::entry_ext`)
+    #[serde(default)]
+    pub crl_entry_ext: u8,
 }
 
 impl Foreign {
@@ -571,7 +577,7 @@ fn foreign_strategy(_: Tier) -> BoxedStrategy<Foreign> {
         prop::collection::vec(ext_spec_strategy(), 0..2),
         prop_oneof![4 => Just(0u8), 3 => 1u8..6, 2 => 6u8..=50],
         prop::bool::weighted(0.12),
-        (any::<u16>(), 0u8..4),
+        (any::<u16>(), 0u8..4, prop_oneof![2 => Just(0u32), 1 => 1u32..3, 1 => any::<u32>()], prop_oneof![2 => Just(0u8), 1 => 1u8..4]),
     );
     (
         content_strategy(),
@@ -592,7 +598,7 @@ fn foreign_strategy(_: Tier) -> BoxedStrategy<Foreign> {
     )
         .prop_map(
             |(content, (issuer, ee_key, mut serial), (when, ee_win, crl_win, at_clock), (ee_aki, ee_bc, ee_exts, ee_key_usage),
-              (crl_aki, crl_number, crl_exts, revoked_others, revoked_has_ee, (revoked_pos, revoked_mode)), (mut extra_attrs, size), alg_null, opts, fault)| {
+              (crl_aki, crl_number, crl_exts, revoked_others, revoked_has_ee, (revoked_pos, revoked_mode, ee_ext_perm, crl_entry_ext)), (mut extra_attrs, size), alg_null, opts, fault)| {
                 if let Some(target) = size {
                     size_extra_attrs(&mut extra_attrs, opts, target);
                 }
@@ -604,6 +610,7 @@ fn foreign_strategy(_: Tier) -> BoxedStrategy<Foreign> {
                 Foreign {
                     content, issuer, ee_key, serial, when, ee_win, crl_win, ee_aki, ee_bc, ee_exts, ee_key_usage, crl_aki, crl_number,
                     crl_exts, revoked_others, revoked_has_ee, revoked_pos, revoked_mode, extra_attrs, alg_null, opts, fault, at_clock,
+                    ee_ext_perm, crl_entry_ext,
                 }
             },
         )
@@ -684,7 +691,11 @@ fn build_foreign(c: &Foreign, ctype: &[u8], content: &[u8]) -> Result<(Vec<u8>, 
         alg_null: c.alg_null,
     };
     let cert_signer = if c.fault == Fault::EeWrongSigner { issuer + 2 } else { issuer };
-    let cert = der::x509_sign(&cert_spec.tbs(), cert_signer, c.alg_null);
+    let mut cert = der::x509_sign(&cert_spec.tbs(), cert_signer, c.alg_null);
+    if c.ee_ext_perm != 0 {
+        let d = der::Dress { perm: c.ee_ext_perm, no_null: !c.alg_null, ..Default::default() };
+        cert = der::dress_cert(&cert, cert_signer, &d).map_err(|e| Fail::new(format!("harness: reordering the EE extensions failed: {}", e)))?;
+    }
 
     // revoked list: `revoked_others` serials different from the EE's, the
     // EE serial inserted at `revoked_pos` if requested
@@ -703,6 +714,7 @@ fn build_foreign(c: &Foreign, ctype: &[u8], content: &[u8]) -> Result<(Vec<u8>, 
         number: c.crl_number.map(|n| n.to_be_bytes().to_vec()),
         extra_exts: c.crl_exts.iter().map(ext_of).collect(),
         alg_null: c.alg_null,
+        entry_ext: c.crl_entry_ext,
     };
     let crl_signer = if c.fault == Fault::CrlWrongSigner { issuer + 2 } else { issuer };
     let crl = der::x509_sign(&crl_spec.tbs(), crl_signer, c.alg_null);
@@ -764,6 +776,9 @@ fn label_foreign(c: &Foreign, attrs_len: usize, expect: bool, obs: &mut Obs) {
     obs.label_if(c.ee_bc == Some(true), "ee-is-ca");
     obs.label_if(c.ee_bc == Some(false), "ee-bc-false");
     obs.label_if(c.revoked_has_ee, "ee-revoked");
+    obs.label_if(c.ee_ext_perm != 0, "ee-extensions-reordered");
+    obs.label_if(c.crl_entry_ext != 0 && (c.revoked_others > 0 || c.revoked_has_ee), "crl-entry-extensions");
+    obs.label_if(c.crl_entry_ext != 0 && c.revoked_has_ee, "ee-revoked-entry-with-extensions");
     obs.label_if(c.revoked_has_ee && revoked_serials(c).1, "ee-revoked-after-larger-serial");
     obs.label_if(c.revoked_has_ee && c.revoked_others > 0 && !revoked_serials(c).1, "ee-revoked-no-larger-before");
     obs.label_if(!c.crl_win.contains_when() && !c.crl_aki, "crl-not-current-no-aki");
